@@ -493,6 +493,40 @@ fn product_laws(mon: &mut Monitor) {
     }
 }
 
+/// free constructor functions (mat2, mat3, mat3a, mat4 and f64 forms) and the axis fields reached through Deref
+fn free_fns_and_fields(mon: &mut Monitor) {
+    if let Some(mut c) = mon.begin("free constructors / axis fields", "columns in order") {
+        let e: Vec<f32> = (0..16).map(|k| tag::<f32>(8 + k)).collect();
+        let d: Vec<f64> = (0..16).map(|k| tag::<f64>(8 + k)).collect();
+        let v2 = |k: usize| Vec2::new(e[k], e[k + 1]);
+        let v3 = |k: usize| Vec3::new(e[k], e[k + 1], e[k + 2]);
+        let v3a = |k: usize| Vec3A::new(e[k], e[k + 1], e[k + 2]);
+        let v4 = |k: usize| Vec4::new(e[k], e[k + 1], e[k + 2], e[k + 3]);
+        let checks: Vec<(&'static str, Vec<u64>, Vec<u64>)> = vec![
+            ("mat2()", mat2(v2(0), v2(2)).to_cols_array().iter().map(|x| x.to_bits() as u64).collect(), e[..4].iter().map(|x| x.to_bits() as u64).collect()),
+            ("mat3()", mat3(v3(0), v3(3), v3(6)).to_cols_array().iter().map(|x| x.to_bits() as u64).collect(), e[..9].iter().map(|x| x.to_bits() as u64).collect()),
+            ("mat3a()", mat3a(v3a(0), v3a(3), v3a(6)).to_cols_array().iter().map(|x| x.to_bits() as u64).collect(), e[..9].iter().map(|x| x.to_bits() as u64).collect()),
+            ("mat4()", mat4(v4(0), v4(4), v4(8), v4(12)).to_cols_array().iter().map(|x| x.to_bits() as u64).collect(), e[..16].iter().map(|x| x.to_bits() as u64).collect()),
+            ("dmat2()", dmat2(DVec2::new(d[0], d[1]), DVec2::new(d[2], d[3])).to_cols_array().iter().map(|x| x.to_bits()).collect(), d[..4].iter().map(|x| x.to_bits()).collect()),
+            ("dmat3()", dmat3(DVec3::new(d[0], d[1], d[2]), DVec3::new(d[3], d[4], d[5]), DVec3::new(d[6], d[7], d[8])).to_cols_array().iter().map(|x| x.to_bits()).collect(), d[..9].iter().map(|x| x.to_bits()).collect()),
+            ("dmat4()", dmat4(DVec4::new(d[0], d[1], d[2], d[3]), DVec4::new(d[4], d[5], d[6], d[7]), DVec4::new(d[8], d[9], d[10], d[11]), DVec4::new(d[12], d[13], d[14], d[15])).to_cols_array().iter().map(|x| x.to_bits()).collect(), d[..16].iter().map(|x| x.to_bits()).collect()),
+            ("Affine3A axis fields", { let a = Affine3A::from_cols_array(&core::array::from_fn(|k| e[k])); [a.x_axis, a.y_axis, a.z_axis, a.w_axis].iter().flat_map(|v| v.to_array()).map(|x| x.to_bits() as u64).collect() }, e[..12].iter().map(|x| x.to_bits() as u64).collect()),
+            ("DAffine3 axis fields", { let a = DAffine3::from_cols_array(&core::array::from_fn(|k| d[k])); [a.x_axis, a.y_axis, a.z_axis, a.w_axis].iter().flat_map(|v| v.to_array()).map(|x| x.to_bits()).collect() }, d[..12].iter().map(|x| x.to_bits()).collect()),
+            ("Affine2 axis fields", { let a = Affine2::from_cols_array(&core::array::from_fn(|k| e[k])); [a.x_axis, a.y_axis, a.z_axis].iter().flat_map(|v| v.to_array()).map(|x| x.to_bits() as u64).collect() }, e[..6].iter().map(|x| x.to_bits() as u64).collect()),
+            ("DAffine2 axis fields", { let a = DAffine2::from_cols_array(&core::array::from_fn(|k| d[k])); [a.x_axis, a.y_axis, a.z_axis].iter().flat_map(|v| v.to_array()).map(|x| x.to_bits()).collect() }, d[..6].iter().map(|x| x.to_bits()).collect()),
+            ("Affine3A axis field write", { let mut a = Affine3A::from_cols_array(&core::array::from_fn(|k| e[k])); a.y_axis.z = e[15]; a.w_axis = v3a(13); a.to_cols_array().iter().map(|x| x.to_bits() as u64).collect() }, { let mut w = e[..12].to_vec(); w[5] = e[15]; w[9] = e[13]; w[10] = e[14]; w[11] = e[15]; w.iter().map(|x| x.to_bits() as u64).collect() }),
+        ];
+        for (nm, got, want) in checks {
+            c.event(vcommon::rng::hash_str(nm), true);
+            if got != want {
+                c.violation("layout", &[nm], nm.into(), format!("{:x?}", got), format!("{:x?}", want), "columns / entries must appear in column-major order, bit-for-bit".into());
+            }
+        }
+        c.sample("mat2()/mat3()/mat3a()/mat4()/dmat*() and the x_axis..w_axis fields of the affine types (read and written through Deref)".into());
+        mon.end(c);
+    }
+}
+
 fn canaries(mon: &mut Monitor) {
     mon.canary("to_cols_array listing rows first", |m| {
         let mut api = mat_lay!(Mat3, f32, 3, 9, Vec3, asref: yes);
@@ -533,4 +567,5 @@ pub fn run(mon: &mut Monitor) {
     minors(mon);
     affine_laws(mon);
     product_laws(mon);
+    free_fns_and_fields(mon);
 }
